@@ -8,9 +8,9 @@ import H3.Lemmas.Headers
     `fs : List (List Nat × List Nat)` — no bound on length, names or values — and for every
     instance `H` of the abstract `http` URI machinery satisfying `HttpLaws`.
 
-    The proofs evaluate five generated constants (`nameRejectsDquote`, `mapFallible`,
-    `trailersRefusePseudo`, `hostEveryValue` must be `true`, `mapPresizeRefuses` must be `false`); on
-    a tree where one of them has the other value this file does not build. -/
+    The proofs evaluate six generated constants (`nameRejectsDquote`, `mapFallible`,
+    `trailersRefusePseudo`, `hostEveryValue`, `otherKindRefused` must be `true`, `mapPresizeRefuses`
+    must be `false`); on a tree where one of them has the other value this file does not build. -/
 namespace H3.Props.C12
 open H3.Headers H3.Spec.Headers H3.Gen
 
@@ -39,8 +39,9 @@ example : validValue [128, 255, 9, 32] = true := by decide
 /-- **Only well-formed requests reach the application.**  If `Header::try_from` followed by
     `into_request_parts` succeeds on the decoded field list `fs`, then `fs` is a well-formed
     request in the oracle's sense (every name non-empty; every regular name a lower-case token
-    with a legal value; every pseudo name one of the six defined ones with a value its parser
-    accepts; a `:method`; a non-empty authority from `:authority` or `Host`, identical when both
+    with a legal value; every pseudo name one of those defined *for requests* — `:method`,
+    `:scheme`, `:authority`, `:path`, `:protocol`, no `:status` (`DefinedFor`, D-12f) — with a value
+    its parser accepts; a `:method`; a non-empty authority from `:authority` or `Host`, identical when both
     are present: **every** `Host` value is the `:authority` value, and without `:authority` all
     `Host` values are one value — `AuthorityOk`, D-12e), and the parts handed over carry exactly
     the received values: the method is the
@@ -69,7 +70,8 @@ theorem C12_accepted_request_wellformed (H : Http) (L : HttpLaws H) (fs : List F
     rw [e] at h
     simp only [Res.bind] at h
     have hi := tryFrom_ok e
-    obtain ⟨hall, auth, m, hc, hm, hu, rm, rp, rh⟩ := intoRequestParts_ok h
+    obtain ⟨hnost, hall, auth, m, hc, hm, hu, rm, rp, rh⟩ := intoRequestParts_ok h
+    have hdef : DefinedFor requestPseudoNames fs := definedFor_request (inv_fieldOk hi) (inv_no_status hi hnost)
     rw [inv_hosts hi, allFirst_iff] at hall
     rw [inv_authority L hi, inv_host hi] at hc
     rw [hi.method] at hm
@@ -103,7 +105,7 @@ theorem C12_accepted_request_wellformed (H : Http) (L : HttpLaws H) (fs : List F
       · exact hall2 _ hl
       · have := hall hv hhv
         rw [hh2] at this; cases this
-    refine ⟨⟨inv_fieldOk hi, ⟨(nMethod, m), lastVal_mem hm, rfl⟩, hex, hboth, hall⟩, ?_, ?_, ?_, ?_⟩
+    refine ⟨⟨inv_fieldOk hi, hdef, ⟨(nMethod, m), lastVal_mem hm, rfl⟩, hex, hboth, hall⟩, ?_, ?_, ?_, ?_⟩
     · rw [rm]; exact hm
     · rw [rp, hi.protocol]
     · refine ⟨auth, hne, hparse, ?_, hhosts, ?_, hu⟩
@@ -121,17 +123,34 @@ theorem C12_accepted_request_wellformed (H : Http) (L : HttpLaws H) (fs : List F
     (R-12b); hence both are refused (`C12_malformed_request_refused`; concretely below, on `toy`). -/
 example (H : Http) : ¬ WellFormedRequest H [(nMethod, [71]), (nAuthority, [97]), (nHost, [97]), (nHost, [98])] := by
   intro h
-  have := h.2.2.2.2 [98] (by decide)
+  have := h.2.2.2.2.2 [98] (by decide)
   revert this; decide
 example (H : Http) : ¬ WellFormedRequest H [(nMethod, [71]), (nHost, [97]), (nHost, [98])] := by
   intro h
-  have := h.2.2.2.2 [98] (by decide)
+  have := h.2.2.2.2.2 [98] (by decide)
+  revert this; decide
+
+/-- the D-12f witnesses: `:method: GET, :authority: a.com, :status: 200` is not a well-formed request
+    (`:status` is not defined for requests) and `:status: 200, :method: GET, :path: /` is not a
+    well-formed response (`:method`, `:path` are not defined for responses), whatever `http` parses;
+    hence both are refused (`C12_malformed_request_refused`, `C12_malformed_response_refused`;
+    concretely below, on `toy`). -/
+example (H : Http) : ¬ WellFormedRequest H
+    [(nMethod, [71, 69, 84]), (nAuthority, [97, 46, 99, 111, 109]), (nStatus, [50, 48, 48])] := by
+  intro h
+  have := h.2.1 (nStatus, [50, 48, 48]) (by decide) (by decide)
+  revert this; decide
+example (H : Http) : ¬ WellFormedResponse H [(nStatus, [50, 48, 48]), (nMethod, [71, 69, 84]), (nPath, [47])] := by
+  intro h
+  have := h.2.1 (nMethod, [71, 69, 84]) (by decide) (by decide)
   revert this; decide
 
 /-! ## received responses -/
 
 /-- **Only well-formed responses reach the application**: accepted ⇒ the oracle's
-    `WellFormedResponse` (names, values, defined pseudo-header fields with parseable values, a
+    `WellFormedResponse` (names, values, no pseudo-header field other than `:status` — the only one
+    defined *for responses*, `DefinedFor`, D-12f: no `:method`, `:scheme`, `:authority`, `:path`,
+    `:protocol` — with a parseable value, a
     `:status`), the status handed over is the number written in the (last) `:status` field, three
     digits 100…999, and the map holds exactly the regular fields, per-name order kept. -/
 theorem C12_accepted_response_wellformed (H : Http) (fs : List FieldLine) (st : Nat) (m : HeaderMap)
@@ -145,25 +164,25 @@ theorem C12_accepted_response_wellformed (H : Http) (fs : List FieldLine) (st : 
   | panic => rw [e] at h; cases h
   | ok hd =>
     rw [e] at h
-    simp only [Res.bind, Header.intoResponseParts] at h
+    simp only [Res.bind] at h
     have hi := tryFrom_ok e
-    split at h
-    · cases h
-    · rename_i s hs
-      cases h
-      rw [hi.status] at hs
-      cases el : lastVal nStatus fs with
-      | none => rw [el] at hs; cases hs
-      | some v =>
-        rw [el] at hs
-        simp only [Option.map_some, Option.some.injEq] at hs
-        have hmem := lastVal_mem el
-        obtain ⟨fld, hp⟩ := hi.accepted _ hmem
-        have hv := parseOk_status hp
-        have hr := statusVal_range v hv
-        refine ⟨⟨inv_fieldOk hi, ⟨(nStatus, v), hmem, rfl⟩⟩, ⟨v, rfl, (validStatus_iff v).mp hv, hs.symm, ?_, ?_⟩, inv_carries hi⟩
-        · rw [← hs]; exact hr.1
-        · rw [← hs]; exact hr.2
+    obtain ⟨hnoreq, hs, hmap⟩ := intoResponseParts_ok h
+    subst hmap
+    have hdef : DefinedFor responsePseudoNames fs :=
+      definedFor_response (inv_fieldOk hi) (inv_no_request_field hi hnoreq)
+    rw [hi.status] at hs
+    cases el : lastVal nStatus fs with
+    | none => rw [el] at hs; cases hs
+    | some v =>
+      rw [el] at hs
+      simp only [Option.map_some, Option.some.injEq] at hs
+      have hmem := lastVal_mem el
+      obtain ⟨fld, hp⟩ := hi.accepted _ hmem
+      have hv := parseOk_status hp
+      have hr := statusVal_range v hv
+      refine ⟨⟨inv_fieldOk hi, hdef, ⟨(nStatus, v), hmem, rfl⟩⟩, ⟨v, rfl, (validStatus_iff v).mp hv, hs.symm, ?_, ?_⟩, inv_carries hi⟩
+      · rw [← hs]; exact hr.1
+      · rw [← hs]; exact hr.2
 
 /-! ## received trailers -/
 
@@ -222,6 +241,8 @@ theorem C12_no_panic (H : Http) (fs : List FieldLine) :
       simp only [Res.bind, Header.intoRequestParts]
       split
       · simp
+      split
+      · simp
       cases hc : chooseAuthority hd.pseudo.authority (hmGet hd.fields nHost) with
       | panic =>
         exfalso
@@ -238,7 +259,7 @@ theorem C12_no_panic (H : Http) (fs : List FieldLine) :
     cases e : tryFrom H fs with
     | panic => exact absurd e hp
     | err x => simp [Res.bind]
-    | ok hd => simp only [Res.bind, Header.intoResponseParts]; split <;> simp
+    | ok hd => simp only [Res.bind]; exact intoResponseParts_ne_panic hd
   · unfold recvTrailers
     cases e : tryFrom H fs with
     | panic => exact absurd e hp
@@ -248,17 +269,21 @@ theorem C12_no_panic (H : Http) (fs : List FieldLine) :
 /-- Every `HeaderError`, at each of the three call sites, becomes a *stream*-level error whose
     code is `H3_MESSAGE_ERROR` (never a connection error), and `H3_MESSAGE_ERROR` is also the code
     that goes to the peer: the server resets its response side and stops the request side with
-    it, the client's `recv_response` and `poll_recv_trailers` stop the receiving side with it.
+    it, the client's `recv_response` — in either of its two arms, after `try_from` and after
+    `into_response_parts` (`second`) — and `poll_recv_trailers` stop the receiving side with it.
     (The codes are read from the three call sites on every run: `H3.Gen.Headers`.) -/
-theorem C12_refusal_is_message_error (e : HeaderError) :
+theorem C12_refusal_is_message_error (e : HeaderError) (second : Bool) :
     (siteResolve e).scope = .stream ∧ (siteResolve e).code = Consts.CODE_H3_MESSAGE_ERROR ∧
     (siteResolve e).stopSending = some Consts.CODE_H3_MESSAGE_ERROR ∧
     (siteResolve e).reset = some Consts.CODE_H3_MESSAGE_ERROR ∧
-    (siteRecvResponse e).scope = .stream ∧ (siteRecvResponse e).code = Consts.CODE_H3_MESSAGE_ERROR ∧
-    (siteRecvResponse e).stopSending = some Consts.CODE_H3_MESSAGE_ERROR ∧ (siteRecvResponse e).reset = none ∧
+    (siteRecvResponse second e).scope = .stream ∧ (siteRecvResponse second e).code = Consts.CODE_H3_MESSAGE_ERROR ∧
+    (siteRecvResponse second e).stopSending = some Consts.CODE_H3_MESSAGE_ERROR ∧ (siteRecvResponse second e).reset = none ∧
     (siteRecvTrailers e).scope = .stream ∧ (siteRecvTrailers e).code = Consts.CODE_H3_MESSAGE_ERROR ∧
     (siteRecvTrailers e).stopSending = some Consts.CODE_H3_MESSAGE_ERROR := by
-  cases e <;> decide
+  cases e <;> cases second <;> decide
+
+example : siteRecvResponse true .invalidHeaderName =
+    { scope := .stream, code := 0x10e, stopSending := some 0x10e, reset := none } := by decide
 
 /-- **Anything else is refused** (requests): a list that is not a well-formed request makes
     `resolve` return a stream-level `H3_MESSAGE_ERROR`; nothing is handed over, nothing panics. -/
@@ -269,17 +294,18 @@ theorem C12_malformed_request_refused (H : Http) (L : HttpLaws H) (fs : List Fie
   cases h : recvRequest H fs with
   | ok r => exact absurd (C12_accepted_request_wellformed H L fs r h).1 hbad
   | panic => exact absurd h (C12_no_panic H fs).1
-  | err e => exact ⟨e, rfl, (C12_refusal_is_message_error e).1, (C12_refusal_is_message_error e).2.1⟩
+  | err e => exact ⟨e, rfl, (C12_refusal_is_message_error e false).1, (C12_refusal_is_message_error e false).2.1⟩
 
-/-- **Anything else is refused** (responses). -/
+/-- **Anything else is refused** (responses); the refusal goes through the arm of `recv_response`
+    that `recvResponseSecond` names. -/
 theorem C12_malformed_response_refused (H : Http) (fs : List FieldLine) (hbad : ¬ WellFormedResponse H fs) :
-    ∃ e, recvResponse H fs = .err e ∧ (siteRecvResponse e).scope = .stream ∧
-      (siteRecvResponse e).code = Consts.CODE_H3_MESSAGE_ERROR := by
+    ∃ e, recvResponse H fs = .err e ∧ (siteRecvResponse (recvResponseSecond H fs) e).scope = .stream ∧
+      (siteRecvResponse (recvResponseSecond H fs) e).code = Consts.CODE_H3_MESSAGE_ERROR := by
   cases h : recvResponse H fs with
   | ok r => obtain ⟨st, m⟩ := r; exact absurd (C12_accepted_response_wellformed H fs st m h).1 hbad
   | panic => exact absurd h (C12_no_panic H fs).2.1
   | err e =>
-    have := C12_refusal_is_message_error e
+    have := C12_refusal_is_message_error e (recvResponseSecond H fs)
     exact ⟨e, rfl, this.2.2.2.2.1, this.2.2.2.2.2.1⟩
 
 /-- **Anything else is refused** (trailers). -/
@@ -290,7 +316,7 @@ theorem C12_malformed_trailers_refused (H : Http) (fs : List FieldLine) (hbad : 
   | ok m => exact absurd (C12_accepted_trailers_wellformed H fs m h).1 hbad
   | panic => exact absurd h (C12_no_panic H fs).2.2
   | err e =>
-    have := C12_refusal_is_message_error e
+    have := C12_refusal_is_message_error e false
     exact ⟨e, rfl, this.2.2.2.2.2.2.2.2.1, this.2.2.2.2.2.2.2.2.2.1⟩
 
 /-! ## the capacity of `http::HeaderMap` -/
@@ -319,7 +345,7 @@ theorem C12_map_capacity (H : Http) (fs : List FieldLine) :
     | ok hd =>
       rw [e] at h
       simp only [Res.bind] at h
-      obtain ⟨_, _, _, _, _, _, _, _, rh⟩ := intoRequestParts_ok h
+      obtain ⟨_, _, _, _, _, _, _, _, _, rh⟩ := intoRequestParts_ok h
       rw [rh]; exact tryFrom_cap e
   · intro st m h
     unfold recvResponse at h
@@ -328,10 +354,9 @@ theorem C12_map_capacity (H : Http) (fs : List FieldLine) :
     | panic => rw [e] at h; cases h
     | ok hd =>
       rw [e] at h
-      simp only [Res.bind, Header.intoResponseParts] at h
-      split at h
-      · cases h
-      · cases h; exact tryFrom_cap e
+      simp only [Res.bind] at h
+      obtain ⟨_, _, hmap⟩ := intoResponseParts_ok h
+      rw [hmap]; exact tryFrom_cap e
   · intro m h
     unfold recvTrailers at h
     cases e : tryFrom H fs with
@@ -531,6 +556,24 @@ example : recvRequest toy [(nAuthority, aCom)] = .err .missingMethod := by decid
 example : recvRequest toy [(nMethod, GET)] = .err .missingAuthority := by decide
 example : recvRequest toy [(nMethod, GET), (nHost, [])] = .err .invalidRequest := by decide
 example : recvRequest toy [(nMethod, GET), (nAuthority, aCom), (nHost, [98])] = .err .contradictedAuthority := by decide
+/-- D-12f: a pseudo-header field of the other kind of message — `:status` in a request; `:method`,
+    `:scheme`, `:authority`, `:path`, `:protocol` in a response — is refused, alone or combined,
+    before or after the fields of the right kind, also when its value repeats -/
+example : recvRequest toy [(nMethod, GET), (nAuthority, aCom), (nStatus, [50, 48, 48])] = .err .invalidHeaderName := by decide
+example : recvRequest toy [(nStatus, [50, 48, 48]), (nMethod, GET), (nScheme, sHttps), (nAuthority, aCom), (nPath, slash)] = .err .invalidHeaderName := by decide
+example : recvRequest toy [(nStatus, [50, 48, 48])] = .err .invalidHeaderName := by decide
+example : recvResponse toy [(nStatus, [50, 48, 48]), (nMethod, GET), (nPath, slash)] = .err .invalidHeaderName := by decide
+example : recvResponse toy [(nMethod, GET), (nStatus, [50, 48, 48])] = .err .invalidHeaderName := by decide
+example : recvResponse toy [(nStatus, [50, 48, 48]), (nScheme, sHttps)] = .err .invalidHeaderName := by decide
+example : recvResponse toy [(nStatus, [50, 48, 48]), (nAuthority, aCom)] = .err .invalidHeaderName := by decide
+example : recvResponse toy [(nStatus, [50, 48, 48]), (nPath, slash)] = .err .invalidHeaderName := by decide
+example : recvResponse toy [(nStatus, [50, 48, 48]), (nProtocol, [119, 101, 98, 115, 111, 99, 107, 101, 116])] = .err .invalidHeaderName := by decide
+example : recvResponse toy [(nMethod, GET), (nScheme, sHttps), (nAuthority, aCom), (nPath, slash)] = .err .invalidHeaderName := by decide
+/-- … and goes through the second arm of `recv_response`; a section `try_from` refuses through the first -/
+example : recvResponseSecond toy [(nStatus, [50, 48, 48]), (nMethod, GET)] = true := by decide
+example : recvResponseSecond toy [(nStatus, [50, 48, 48]), ([88], [49])] = false := by decide
+/-- a repeated `:status` in a response, repeated request fields in a request are still handed over (R-12 (i)) -/
+example : recvResponse toy [(nStatus, [50, 48, 48]), (nStatus, [50, 48, 52])] = .ok (204, []) := by decide
 /-- D-12e: a later `Host` value that differs — from `:authority`, or from the first `Host` value
     when the authority comes from `Host` — is a contradiction as well; identical ones are not -/
 example : recvRequest toy [(nMethod, GET), (nAuthority, aCom), (nHost, aCom), (nHost, [98])] = .err .contradictedAuthority := by decide
